@@ -628,7 +628,80 @@ def r07_12(ctx: Ctx, rule: str = "R07.12") -> None:
     ctx.floor(rule, n, 8, "writer paths checked against the section grammars")
 
 
+# library knowledge: the call that ENDS a compressed stream (a plain flush leaves some of them open)
+STREAM_ENDERS = {"BrotliCompressor": ("finish",), "DeflateCompressor": ("flush",), "Deflate64Compressor": ("flush",), "ZstdCompressor": ("flush",),
+                 "PpmdCompressor": ("flush",)}
+
+
+def r07_13(ctx: Ctx, rule: str = "R07.13") -> None:
+    """(a) every coder's flush() ends its stream with the library call that writes the final block (brotli: finish(), not flush(): a Brotli
+    stream without its last meta-block is truncated for every other decoder).  (b) the file ends where the archive ends: _write_header cuts
+    the file at the end of the new header before the signature header commits it (an append session whose tail is shorter than the old
+    header would otherwise leave old header bytes behind the archive: 32 + NextHeaderOffset + NextHeaderSize != file size)."""
+    n = 0
+    for cname, enders in sorted(STREAM_ENDERS.items()):
+        if not ctx.prog.has_cls(cname):
+            continue
+        cls = ctx.prog.cls(cname, "compressor")
+        fl = cls.methods.get("flush")
+        ctx.need(fl is not None, f"{cname}.flush vanished")
+        n += 1
+        names = {attr_tail(c) for c in q.calls(fl)}
+        ctx.check(bool(names & set(enders)), rule, fl, fl.node, f"{cname}.flush ends the stream ({'/'.join(enders)})",
+                  f"{cname}.flush calls {sorted(names)} but not {list(enders)}: the compressed stream is written without its final block; py7zr's own reader does not check for the "
+                  "end of the stream, every independent decoder reports the data as truncated", construct=f"{cname}.flush ender")
+    ctx.floor(rule, n, 4, "coder flush methods checked")
+    h = shared.szf(ctx, "_write_header")
+    cfg = cfg_of(h.node)
+    hw = [c for c in q.calls(h) if norm(c.func).endswith("header.write")]
+    sw = [c for c in q.calls(h) if norm(c.func).endswith("sig_header.write")]
+    tr = [c for c in q.calls(h) if attr_tail(c) == "truncate" or (isinstance(c.func, ast.Name) and any(
+        isinstance(v, ast.Call) and dotted(v.func) == "getattr" and len(v.args) > 1 and isinstance(v.args[1], ast.Constant) and v.args[1].value == "truncate"
+        for v in q.assigned_values(h, c.func.id)))]
+    ok = bool(hw) and bool(sw) and any(cfg.reaches(q.node_for(h, hw[0]), q.node_for(h, t)) and cfg.reaches(q.node_for(h, t), q.node_for(h, sw[0])) for t in tr)
+    ctx.check(ok, rule, h, h.node, "the file is cut at the end of the new header before the signature header commits it",
+              "_write_header never truncates the file: after an append session whose data + header end before the end of the old file (or a plain reopen-and-close) bytes of the "
+              "old header follow the end of the archive and the signature header no longer describes the bytes on disk", construct="truncate after header")
+
+
+def r07_14(ctx: Ctx, rule: str = "R07.14") -> None:
+    """a write or append session keeps its write position and its worker: every method of SevenZipFile other than the constructor and the
+    _prepare_* helpers that re-seeks the archive handle to the packed data or replaces `self.worker` does so only under `mode == "r"` (a
+    dominating guard that leaves the function for any other mode).  test()/extractall() called on an object opened with 'a' or 'w' would
+    otherwise move the handle onto existing packed data: the next write overwrites members and close() describes bytes that are not there."""
+    cls = ctx.prog.cls("SevenZipFile", "py7zr")
+    n = 0
+    for name, f in sorted(cls.methods.items()):
+        if name in ("__init__", "_prepare_write", "_prepare_append"):
+            continue
+        cfg = cfg_of(f.node)
+        sites = [a for a in walk(f.node) if isinstance(a, ast.Assign) and any(norm(t) == "self.worker" for t in a.targets)]
+        sites += [c for c in q.calls(f) if attr_tail(c) == "seek" and norm(c.func.value) == "self.fp" and c.args and "_packed_start" in norm(c.args[0])]
+        for sgt in sites:
+            n += 1
+            sn = q.node_for(f, sgt)
+            ok = any(pol and isinstance(cd, ast.Compare) and isinstance(cd.ops[0], ast.Eq) and "mode" in norm(cd.left) and isinstance(cd.comparators[0], ast.Constant)
+                     and cd.comparators[0].value == "r" for cd, pol in q.facts_at(f, sgt))
+            for t in cfg.nodes:
+                if ok or t.kind != "test" or not cfg.dominates(t, sn):
+                    continue
+                c = t.ast
+                if isinstance(c, ast.Compare) and len(c.ops) == 1 and "mode" in norm(c.left) and isinstance(c.comparators[0], ast.Constant) and c.comparators[0].value == "r":
+                    leave = next((e for e in t.succ if e.kind == ("true" if isinstance(c.ops[0], ast.NotEq) else "false")), None)
+                    if leave is not None and not cfg.reaches(leave, sn):
+                        ok = True
+            ctx.check(ok, rule, f, sgt, f"{f.qname}: handle/worker are reset only in a read session",
+                      f"{f.qname} executes `{norm(sgt)[:60]}` whatever the mode: called on an archive opened with 'a' (or 'w') it moves the write position onto the packed data of "
+                      "existing members and drops the append worker; the next write overwrites them and close() writes a header for bytes that are not on disk",
+                      construct=f"{name} resets session state")
+    ctx.floor(rule, n, 4, "handle/worker resets outside the constructor")
+
+
 def run(ctx: Ctx) -> None:
+    from . import c16 as _c16
+    _c16.r16_8(ctx, rule="R07.15")  # a NUL in a name breaks the Names record
+    r07_14(ctx)
+    r07_13(ctx)
     r07_12(ctx)
     shared.layout_agreement(ctx, "R07.11")
     r07_10(ctx)
